@@ -39,6 +39,10 @@ def main():
     ch.append(emit.write_if_changed(os.path.join(gen, "ObjApi.v"), api_v))
     ch.append(emit.write_if_changed(os.path.join(gen, "ObjNames.v"), names_v))
     t3counts = {k: len(v) for k, v in recs.items()}
+    from tools.vtrace import t2
+    eff_v, eff_meta = t2.emit()
+    ch.append(emit.write_if_changed(os.path.join(gen, "EffectSkel.v"), eff_v))
+    json.dump(eff_meta, open(os.path.join(ROOT, "build", "t2.json"), "w"), indent=1)
     emit.write_if_changed(os.path.join(ROOT, "build", "ir.json"), json.dumps(ir))
     from tools.vtrace import validate
     seed = int(os.environ.get("VERIF_SEED", "0") or 0)
